@@ -144,15 +144,24 @@ func (this *RaftGroup) VerifLastApplied() (uint64, bool) {
 // VerifWaitLoopExit waits until the ready loop has returned (after Stop or
 // VerifKill): from then on this incarnation no longer touches its log store.
 func (this *RaftGroup) VerifWaitLoopExit(d time.Duration) bool {
-	if !this.started {
-		return true
+	t := time.After(d)
+	if this.started {
+		select {
+		case <-this.done:
+		case <-t:
+			return false
+		}
 	}
-	select {
-	case <-this.done:
-		return true
-	case <-time.After(d):
-		return false
+	// the library's own node goroutine reads the log store as well (ticks, elections)
+	if c, ok := verifNodeStopped.Load(this); ok {
+		select {
+		case <-c.(chan struct{}):
+			verifNodeStopped.Delete(this)
+		case <-t:
+			return false
+		}
 	}
+	return true
 }
 
 func (this *RaftGroup) VerifStopped() bool {
@@ -168,10 +177,21 @@ func (this *RaftGroup) VerifStopped() bool {
 // no goodbye, the raft node goroutine is stopped and the group unregistered.
 func (this *RaftGroup) VerifKill() {
 	this.ctxCancel()
-	go this.raft.Stop()
+	stopped := make(chan struct{})
+	verifNodeStopped.Store(this, stopped)
+	go func() {
+		this.raft.Stop()
+		close(stopped)
+		// (do not keep a dead group reachable for long if nobody waits for it)
+		time.Sleep(3 * time.Second)
+		verifNodeStopped.Delete(this)
+	}()
 	this.transport.removeGroup(this.id)
 	verifLoopChans.Delete(this)
 }
+
+// the raft node goroutine of a killed group has returned once this channel is closed
+var verifNodeStopped sync.Map
 
 // VerifSetPeerClient injects an in-memory client used for raft messages to nodeId.
 func (this *RaftTransport) VerifSetPeerClient(nodeId uint64, c pb.RaftTransportClient) {
